@@ -407,6 +407,8 @@ def owner(unit, f):
             return ("C04", "C02")
         if "static_status" in f.snippet:
             return ("C09", "C03", "C02")
+        if "effective_range" in f.snippet:
+            return ("C03", "C09")
         if "error_status_kept" in f.snippet:
             return ("C03", "C05", "C02")
         if f.kind in SAFETY_KINDS:
